@@ -146,6 +146,31 @@ fn check_reference(st: &Store, e: Node, ra: &RefMap, rn: &RefMap, out: &mut Out,
     if ev_a != want_a || ev_n_own[ev_n_own.len().saturating_sub(want_n.len())..] != want_n[..] {
         out.fail(case, "serialisation-order", &format!("step {}: output events list attributes {:?} / prefixes {:?}, views {:?} / {:?}", step, ev_a, ev_n, want_a, want_n));
     }
+    // ... and the written text: every declaration of the view is in the start tag, in the order of the view (read back by
+    // parsing what was written; a serialisation that fails — a name without a usable prefix — is not judged here)
+    // (a prefix bound to "no namespace" through the API has no spelling in XML: such an element is outside this clause)
+    let expressible = st.xot.descendants(e).all(|d| !st.xot.is_element(d) || st.xot.namespaces(d).iter().all(|(p, n)| p == st.xot.empty_prefix() || *n != st.xot.no_namespace()))
+        && st.xot.ancestors(e).all(|d| !st.xot.is_element(d) || st.xot.namespaces(d).iter().all(|(p, n)| p == st.xot.empty_prefix() || *n != st.xot.no_namespace()));
+    if !expressible { return; }
+    if let Ok(Ok(text)) = guard(|| st.xot.to_string(e)) {
+        let mut x2 = Xot::new();
+        match guard(|| x2.parse(&text)) {
+            Ok(Ok(doc)) => {
+                let top = x2.document_element(doc).unwrap();
+                let written: Vec<(String, String)> = x2.namespaces(top).iter().map(|(p, n)| (x2.prefix_str(p).to_string(), x2.namespace_str(*n).to_string())).collect();
+                let view: Vec<(String, String)> = st.xot.namespaces(e).iter().map(|(p, n)| (st.xot.prefix_str(p).to_string(), st.xot.namespace_str(*n).to_string())).collect();
+                // the declarations of the view, as a subsequence of what was written (in front of them come the bindings the
+                // element inherits, and the serialiser may add an xmlns="" of its own)
+                let mut it = written.iter();
+                let all_in_order = view.iter().all(|d| it.any(|w| w == d));
+                if !all_in_order {
+                    out.fail(case, "declaration-of-the-view-not-written", &format!("step {}: the namespace view holds {:?} but the start tag written is {:?} (declarations read back: {:?})", step, view, text.split('>').next().unwrap_or(""), written));
+                }
+            }
+            Ok(Err(err)) => out.fail(case, "written-element-does-not-parse", &format!("step {}: {:?} is rejected: {:?}", step, text, err)),
+            Err(()) => out.fail(case, "written-element-does-not-parse", &format!("step {}: parsing {:?} panicked", step, text)),
+        }
+    }
 }
 
 fn apply_ref(op: &Op, e: Handle, st: &Store, before_vals: &std::collections::BTreeMap<Handle, String>, ra: &mut RefMap, rn: &mut RefMap, before_parent: &std::collections::BTreeMap<Handle, Option<Handle>>) {
@@ -201,7 +226,9 @@ fn main() {
         let wide = replay_lines.is_none() && r.chance(1, 8);
         let attr_pool: Vec<usize> = if wide { pool.attr_names.iter().chain(pool.extra_attrs.iter()).copied().collect() } else { pool.attr_names.clone() };
         let pf_pool: Vec<usize> = if wide { pool.prefixes.iter().chain(pool.extra_prefixes.iter()).copied().collect() } else { pool.prefixes.clone() };
-        let ur_pool: Vec<usize> = if wide { pool.uris.iter().chain(pool.extra_uris.iter()).copied().collect() } else { pool.uris.clone() };
+        let mut ur_pool: Vec<usize> = if wide { pool.uris.iter().chain(pool.extra_uris.iter()).copied().collect() } else { pool.uris.clone() };
+        // now and then the xml namespace (registry namespace 1) under an ordinary prefix: a declaration like any other
+        if replay_lines.is_none() && r.chance(1, 3) { ur_pool.push(1); }
         // start: a document with two sibling elements e1, e2 carrying 0-4 declarations and 0-4 attributes each
         let (case, start, ops_in): (String, Vec<ANode>, Option<Vec<Op>>) = match &replay_lines {
             Some(v) => {
